@@ -12,13 +12,29 @@ def _run(n):
     series = [rng.standard_normal((L, N)) + 5.0 * (np.arange(L) % K)[:, None] for L in lens]
     kw = dict(window_size=W, num_clusters=K, iteration_limit=lim, min_cluster_size=1, sparsity_weight=0.1,
               label_switching_cost=1.0)
-    if n.get('joint'):
-        res = fast_ticc.ticc_joint_labels(list(series), **kw)
-        lists = res.point_labels
+    fe = (lambda **k: fast_ticc.ticc_joint_labels(list(series), **k)) if n.get('joint') else \
+         (lambda **k: fast_ticc.ticc_labels(series[0], **k))
+    if n.get('W_first'):
+        # call history: an earlier call on the very same arrays with another window size
+        try:
+            fe(**dict(kw, window_size=int(n['W_first'])))
+        except Exception:
+            pass
+        try:
+            res = fe(**kw)
+        except Exception as exc:
+            m = dict(n)
+            m.pop('W_first')
+            _run(m)                        # raises too if the sizes cannot be fitted at all
+            raise EarlierCallMatters(repr(exc))
     else:
-        res = fast_ticc.ticc_labels(series[0], **kw)
-        lists = [res.point_labels]
+        res = fe(**kw)
+    lists = res.point_labels if n.get('joint') else [res.point_labels]
     return res, lists, W, N, K, lens
+
+
+class EarlierCallMatters(Exception):
+    pass
 
 
 def _judge(res, lists, W, N, K, lens):
@@ -51,6 +67,9 @@ def replay(w):
         m['lens'] = [int(x) + extra for x in n['lens']]
         try:
             r = _run(m)
+        except EarlierCallMatters as exc:
+            return {'reproduced': True, 'signature': 'call-fails-only-after-an-earlier-call-on-the-same-arrays',
+                    'observed': {'lens': m['lens'], 'raised': str(exc)}}
         except Exception as exc:       # the run did not complete on this data: not a structure verdict
             last = repr(exc)
             continue
